@@ -9,7 +9,7 @@ use std::io::{Read, Write};
 use noodles_bgzf as bgzf;
 use vmc::{
     Chooser, Config, Outcome, Violation,
-    env::FaultSink,
+    env::{FaultSink, SinkMode},
     oracle::bgzf::{self as ob, Payload},
 };
 
@@ -30,6 +30,10 @@ enum Ending {
 enum Style {
     WriteAll,
     RawWrite,
+}
+
+fn ctx_depth() -> usize {
+    4
 }
 
 fn fp(stage: &str, what: &str) -> String {
@@ -209,6 +213,144 @@ fn body(
     Ok(())
 }
 
+/// After a flush that failed *cleanly* (the destination refused the first call of a frame, so what it
+/// holds is still a whole number of members), a later flush / finish / drop that reports success must
+/// leave the complete file: the staged bytes may not be forgotten because one attempt failed.
+fn retry_body(ch: &Chooser, alphabet: &[Op], depth: usize, levels: &[u8]) -> Outcome {
+    let level = *ch.pick_free("level", levels);
+    let ending = *ch.pick_free("ending", &[Ending::Finish, Ending::Drop]);
+    let retry = ch.free("retry-flush", 2) == 1;
+    let mut ops = Vec::new();
+    for _ in 0..depth {
+        let k = ch.free("op", alphabet.len() + 1);
+        if k == 0 {
+            break;
+        }
+        ops.push(alphabet[k - 1]);
+    }
+    let describe = || format!("level={level} ending={ending:?} retry={retry} ops={ops:?}");
+    ch.desc(describe);
+
+    let sink = FaultSink::new(SinkMode::ChooseFail, Some(ch.clone()))
+        .with_kinds(vec![std::io::ErrorKind::WouldBlock, std::io::ErrorKind::Other])
+        .not_sticky();
+    let lvl = bgzf::io::writer::CompressionLevel::new(level).expect("level");
+    let mut w = bgzf::io::writer::Builder::default().set_compression_level(lvl).build_from_writer(sink.clone());
+
+    let mut model: Vec<u8> = Vec::new();
+    let mut clean_flush_failure = false;
+    let mut other_failure = false;
+    for op in &ops {
+        match *op {
+            Op::F => {
+                if w.flush().is_err() {
+                    // what the destination holds right now is what it held when the fault hit
+                    if ob::walk(&sink.bytes()).is_ok() {
+                        clean_flush_failure = true;
+                    } else {
+                        other_failure = true;
+                    }
+                    if retry && w.flush().is_err() {
+                        other_failure = true;
+                    }
+                }
+            }
+            Op::W(n) => {
+                let data = ob::payload(Payload::Text, model.len() as u64, n);
+                if w.write_all(&data).is_err() {
+                    // a failed write may or may not have staged its bytes: not judged
+                    other_failure = true;
+                    break;
+                }
+                model.extend_from_slice(&data);
+            }
+        }
+    }
+    if other_failure {
+        ch.tag("fault-not-at-a-frame-start-or-in-write(not judged)");
+        return Ok(());
+    }
+    match ending {
+        Ending::Finish => {
+            if w.finish().is_err() {
+                ch.tag("finish-reports-the-fault");
+                return Ok(());
+            }
+        }
+        _ => drop(w),
+    }
+    if sink.faulted_at().is_none() {
+        ch.tag("no-fault");
+    }
+    if clean_flush_failure {
+        ch.tag("clean-flush-failure-then-success");
+    }
+    let bytes = sink.bytes();
+    ch.obs_hash((bytes.len(), clean_flush_failure, sink.faulted_at()));
+    if ending == Ending::Drop && sink.faulted_at().is_some() && !clean_flush_failure {
+        // the fault hit a write issued by Drop itself: nobody can be told
+        ch.tag("fault-during-drop(not judged)");
+        return Ok(());
+    }
+    let members = match ob::walk(&bytes) {
+        Ok(m) => m,
+        Err(e) => {
+            return Err(Violation::new(fp("retry", "file-not-wellformed-after-reported-success"), describe(), "well-formed BGZF members", e));
+        }
+    };
+    let mut cat = Vec::new();
+    for m in &members {
+        cat.extend_from_slice(&m.data);
+    }
+    if cat != model || !ob::ends_with_eof(&bytes) {
+        return Err(Violation::new(
+            fp("retry", "accepted-bytes-missing-after-reported-success"),
+            describe(),
+            format!("{} bytes as accepted by write_all, then the EOF marker", model.len()),
+            vmc::diff_bytes(&model, &cat),
+        ));
+    }
+    Ok(())
+}
+
+/// Members at and around the largest size the format allows: a full staging buffer whose first `n`
+/// bytes are incompressible and whose rest is zeros, for every `n` in the range where the compressed
+/// size crosses the 64 KiB limit (the member is 65536 bytes long for some `n`, one byte more and the
+/// writer has to fall back to stored blocks).
+fn member_size_case(level: u8, n: usize) -> Result<usize, Violation> {
+    let describe = || format!("level={level} payload=random[{n}]+zeros[{}]+5 bytes", 65495 - n);
+    let mut data = ob::payload(Payload::Random, 0, n);
+    data.resize(65495 + 5, 0);
+    let lvl = bgzf::io::writer::CompressionLevel::new(level).expect("level");
+    let mut w = bgzf::io::writer::Builder::default().set_compression_level(lvl).build_from_writer(Vec::new());
+    if let Err(e) = w.write_all(&data) {
+        return Err(Violation::new(fp("max-member", "write-error"), describe(), "Ok", format!("{e}")));
+    }
+    let bytes = match w.finish() {
+        Ok(b) => b,
+        Err(e) => return Err(Violation::new(fp("max-member", "finish-error"), describe(), "Ok", format!("{e}"))),
+    };
+    let members = match ob::walk(&bytes) {
+        Ok(m) => m,
+        Err(e) => return Err(Violation::new(fp("max-member", "not-wellformed"), describe(), "well-formed BGZF members", e)),
+    };
+    let mut cat = Vec::new();
+    for m in &members {
+        cat.extend_from_slice(&m.data);
+    }
+    if cat != data || !ob::ends_with_eof(&bytes) {
+        return Err(Violation::new(fp("max-member", "payload-differs"), describe(), "payload as written + EOF marker", vmc::diff_bytes(&data, &cat)));
+    }
+    let mut back = Vec::new();
+    if let Err(e) = bgzf::io::Reader::new(&bytes[..]).read_to_end(&mut back) {
+        return Err(Violation::new(fp("max-member", "read-error"), describe(), "Ok", format!("{e}")));
+    }
+    if back != data {
+        return Err(Violation::new(fp("max-member", "read-differs"), describe(), "payload as written", vmc::diff_bytes(&data, &back)));
+    }
+    Ok(members.iter().map(|m| m.size).max().unwrap_or(0))
+}
+
 fn main() {
     vmc::run("C01", "model_checking", |ctx| {
         use Op::*;
@@ -220,6 +362,32 @@ fn main() {
         let endings = [Ending::Finish, Ending::Drop, Ending::TryFinishThenDrop];
         ctx.rule("every sequence of write(len)/flush ops up to the depth x payload class x level x ending x call style; distinct = distinct member geometries (size, ISIZE, stored) observed");
         ctx.assume("miniz_oxide inflate and crc32fast are correct (independent of zlib-rs used by noodles)");
+        // members at the size limit
+        {
+            let levels: Vec<u8> = if ctx.quick() { vec![1, 6] } else { (0..=9).collect() };
+            let lo = 60_000usize;
+            let per = 65_495 - lo + 1;
+            let n_cases = (levels.len() * per) as u64;
+            let biggest = std::sync::atomic::AtomicUsize::new(0);
+            let lv = levels.clone();
+            ctx.sweep(
+                "member_size_boundary",
+                n_cases,
+                |i| format!("level={} n={}", lv[i as usize / per], lo + i as usize % per),
+                |i| {
+                    let size = member_size_case(levels[i as usize / per], lo + i as usize % per)?;
+                    biggest.fetch_max(size, std::sync::atomic::Ordering::Relaxed);
+                    Ok(())
+                },
+            );
+            let b = biggest.load(std::sync::atomic::Ordering::Relaxed);
+            eprintln!("[C01] member_size_boundary: largest member seen {b} bytes");
+            ctx.extra("largest_member_bytes", vmc::serde_json::json!(b));
+        }
+        // flush retried / writer finished after a cleanly failed flush
+        ctx.harness(Config::new("writer_retry_after_failed_flush", 1), |ch| {
+            retry_body(ch, &[W(1), F, W(255), W(65495)], ctx_depth(), &[6, 0])
+        });
         if ctx.quick() {
             let classes = [Payload::Text, Payload::Random, Payload::Zeros];
             let levels = [6u8, 0, 1, 9];
